@@ -8,10 +8,38 @@ import (
 	"github.com/trajectoryjp/spatial_id_go/v4/common"
 )
 
+// int slices for the generic helpers: like split(), a window of a larger array with sentinels behind it; shared (one
+// slice per distinct text) in the concurrent mode and tracked in the det mode
+var (
+	trackedInts [][2][]int64
+	intCache    = map[string][]int64{}
+)
+
+const intSentinel = int64(-0x5e471e15e471e1)
+
 func ints(s string) []int64 {
-	var r []int64
-	for _, f := range split(s) {
-		r = append(r, atoi(f))
+	if shareSlices {
+		if r, ok := intCache[s]; ok {
+			return r
+		}
+	}
+	var parts []string
+	if s != "[]" {
+		parts = strings.Split(s, ",")
+	}
+	full := make([]int64, len(parts)+spare)
+	for i, f := range parts {
+		full[i] = atoi(f)
+	}
+	for i := len(parts); i < len(full); i++ {
+		full[i] = intSentinel
+	}
+	r := full[:len(parts)]
+	if trackSlices {
+		trackedInts = append(trackedInts, [2][]int64{full, append([]int64(nil), full...)})
+	}
+	if shareSlices && !cacheFrozen {
+		intCache[s] = r
 	}
 	return r
 }
